@@ -66,7 +66,11 @@ P = {
          "theorem (fuel-bounded model). " + TIE),
  "C06": ("Classic", "Theorems (Props/C06.v; Classic/*): for classic instances (teleporting AGVs, zero travel) the Taillard lower bound "
          "computed by the model of calculate_lower_bound is below the makespan of EVERY feasible schedule (C06_lb_sound, via the packing "
-         "lemma), and a feasible schedule exists (sequential). That the environment's action space reaches an optimal schedule is "
+         "lemma), and a feasible schedule exists (sequential). END TO END (C06_lower_bound_below_every_terminated_run_flex, SMP/EndToEnd.v): for "
+         "an instance whose job table is classic and whose machine post-buffers are unordered, the operation records of EVERY terminated "
+         "run of the middleware (any actions, oracle, fuel; AGVs/setups/outages allowed) form a feasible schedule of the classic instance, "
+         "so the bound is at most every upper bound of the completion times, in particular the reported makespan - the environment's "
+         "optimum cannot be below the bound and the terminal reward cannot exceed its maximum. That the environment's action space reaches an optimal schedule is "
          "explored (bounded tree search against brute force on small instances), not proved. Tie: the lower-bound model (extracted) is "
          "compared with calculate_lower_bound on generated and shipped instances on every run."),
  "C07": ("SM", "Theorems (Props/C07.v; SMP/Post, Offers): dispatch stamps occupied_till = now + travel(AGV position -> job's place) read "
